@@ -92,8 +92,13 @@ def key_in(k):
     return pred_in(k[1])
 
 
+class Phase(Task):
+    """a user subclass of Task that changes nothing"""
+
+
 class World:
     def __init__(self, case):
+        self.mk = Phase if case.get('subclass') else Task
         self.objs = {}       # object number -> Task
         self.num = {}        # id(Task) -> object number
         self.free = case['free']
@@ -107,7 +112,7 @@ class World:
 
     def build(self, n):
         kw = {k: val_in(v) for k, v in n['attrs']}
-        t = Task(val_in(n['id']), **kw)
+        t = self.mk(val_in(n['id']), **kw)
         for name in n.get('del', []):
             delattr(t, name)
         self.objs[n['o']] = t
